@@ -93,6 +93,9 @@ class SymE:
     def pad(self, n):
         self.atoms.append(APad(n, dontcare=True))
 
+    def zeros(self, n):
+        self.atoms.append(APad(n))
+
     def fold(self, seq, fn):
         def body(k):
             E = self._sub()
@@ -211,6 +214,11 @@ def gapped(s, N, comps, assume):
     return present, n, st, sp
 
 
+def runs_assume(ctx, o):
+    from .loader import assume_runs
+    assume_runs(ctx, o.N, o.present, o.nruns, o.run_start, o.run_stop)
+
+
 def runs_view(n, st, sp):
     return SeqView(0, n, lambda k: NS(start=st(k), len=sp(k) - st(k), frames=SeqView(st(k), sp(k), lambda f: f)))
 
@@ -249,7 +257,6 @@ def _track_common(self, interp, o, s, N, comps, assume, with_label=True):
     from .loader import assume_runs
     present, n, st, sp = gapped(s, N, comps, assume)
     o.present, o.nruns, o.run_start, o.run_stop, o.N = present, n, st, sp, N
-    o.runs_assume = lambda ctx: assume_runs(ctx, N, present, n, st, sp)
     assume.append(N >= 1)
 
 
@@ -589,18 +596,26 @@ class _Seelab(Spec):
 
 @spec("BTSCamera", "basictdf.tdfCalibrationData.BTSCameraData")
 class _BTSCam(Spec):
-    arrs = [("rotation_matrix", (3, 3)), ("translation_vector", (3,)), ("focus", (2,)), ("optical_center", (2,)),
-            ("x_distortion_coefficients", (70,)), ("y_distortion_coefficients", (70,))]
+    arrs = [("rotation_matrix", (3, 3)), ("translation_vector", (3,)), ("focus", (2,)), ("optical_center", (2,))]
 
     def make(self, interp, path, idx, assume, variant=None):
         s = Sym(path, idx)
         o = self.new(interp, (path,) + tuple(idx))
         for nm, shp in self.arrs:
             o.fields[nm] = sym_nd(s, nm, shp, "f8")
+        for nm, cnt in (("x_distortion_coefficients", "nx"), ("y_distortion_coefficients", "ny")):
+            n = s.int(cnt)
+            assume.append(And(n >= 0, n <= 70))
+            o.fields[nm] = sym_nd(s, nm, (n,), "f8")
         o.fields["view_port"] = _sub_obj(interp, s, "view_port", "Viewport", assume)
         return o
 
-    view = _Seelab.view
+    def view(self, o):
+        d = {nm: o.fields[nm].flat() for nm, _ in self.arrs}
+        x, y = o.fields["x_distortion_coefficients"], o.fields["y_distortion_coefficients"]
+        return NS(view_port=o.fields["view_port"], x_distortion_coefficients=x.flat(), y_distortion_coefficients=y.flat(),
+                  nx=x.shape[0], ny=y.shape[0], **d)
+
     build_args = _Seelab.build_args
 
 
